@@ -36,7 +36,7 @@ def parseOp (w : List String) : Option Op :=
 /-- observable events of the model since `oldLen` (oldest first) -/
 def newEvents (s : St) (oldLen : Nat) : List String :=
   ((s.log.take (s.log.length - oldLen)).reverse).map fun
-    | .ran id _ now _ => s!"ran {id} {now}"
+    | .ran id _ now _ _ => s!"ran {id} {now}"
     | .poll ms => s!"poll {ms}"
     | .fuel => "fuel"
 
